@@ -33,11 +33,11 @@ def _feed(h, x, skip, depth, seen):
         else:
             h.update(x.tobytes())
     elif isinstance(x, pd.Series):
-        h.update(b"S")
+        h.update(b"S" + str(x.dtype).encode() + repr(x.name).encode())
         _feed(h, np.asarray(x.index), skip, depth + 1, seen)
         _feed(h, np.asarray(x.values), skip, depth + 1, seen)
     elif isinstance(x, pd.DataFrame):
-        h.update(b"D" + repr(list(x.columns)).encode())
+        h.update(b"D" + repr(list(x.columns)).encode() + repr([str(t) for t in x.dtypes]).encode())
         _feed(h, np.asarray(x.index), skip, depth + 1, seen)
         _feed(h, x.to_numpy(), skip, depth + 1, seen)
     elif isinstance(x, pd.Index):
